@@ -16,6 +16,25 @@ ROOT = Path(__file__).resolve().parent.parent
 BASELINE = json.loads(Path("/root/.vp/BASELINE.json").read_text())
 
 
+def rerun_broken(scratch, broken):
+    """Timing-based tests (tests/test_thread.py, test_ash_end_to_end) flake on a loaded machine: a test
+    counted as broken is re-run on its own, twice; it stays broken only if it fails both times."""
+    still = []
+    for t in broken:
+        mod, name = t.split("::", 1)
+        node = mod.replace(".", "/") + ".py::" + name
+        ok = False
+        for _ in range(2):
+            p = subprocess.run(["/venv/bin/python", "-m", "pytest", "-q", "-p", "no:cacheprovider", "-p", "no:sugar", "--timeout=120", node],
+                               cwd=scratch, capture_output=True, text=True)
+            if p.returncode == 0:
+                ok = True
+                break
+        if not ok:
+            still.append(t)
+    return still
+
+
 def main():
     wt, k, bid, prop, kind, what = sys.argv[1:7]
     src = Path(wt) / "BENIGN" / k
@@ -36,6 +55,8 @@ def main():
             if not any(ch.tag in ("failure", "error", "skipped") for ch in tc):
                 passed.add(f"{tc.get('classname')}::{tc.get('name')}")
         broken = sorted(set(BASELINE["stable_pass"]) - passed)
+        if broken and len(broken) <= 6:
+            broken = rerun_broken(scratch, broken)
         report["ran"].append({"step": "baseline tests with the change", "stable_tests_broken": broken[:5], "n_passed": len(passed)})
     ok = p.returncode == 0 and not broken
     report["confirmed"] = ok
